@@ -351,6 +351,8 @@ func (it *Interp) callNative(n *Native, name string, a []Val) Val {
 		case "Error":
 			return it.errString(n)
 		}
+	case "hasher":
+		return it.hasherMethod(n, name, a)
 	case "gasmeter":
 		switch name {
 		case "ConsumeGas", "RefundGas":
